@@ -7,37 +7,37 @@ HERE = os.path.dirname(os.path.dirname(os.path.abspath(__file__)))
 CHECKS = {
  "C13": ("svcmon", "exploration",
          "runtime monitor: Go race detector on the real server under concurrent clients and hook delays + per-request oracle + event-log interleaving coverage",
-         "A -race -tags verif build of the server is driven by rounds of 2..16 clients released together, under three hook-delay profiles that widen the read/decode/prove/write windows; requests include equal-length valid bodies and bodies arriving in two TCP segments. Every response is judged by its own request's oracle (proof verifies for THIS hash; deterministic error bodies equal the response the same request gets alone) and the race log must be empty. Evidence reports client/server-side overlap and distinct interleaving signatures. Held on the schedules produced.",
+         "A -race -tags verif build of the server is driven by rounds of 2..16 clients released together, under three hook-delay profiles that widen the read/decode/prove/write windows; requests include equal-length valid bodies, bodies arriving in two TCP segments and valid/invalid twins with the same input hash; the rounds are repeated on the plain binary. Every response is judged by its own request's oracle (proof verifies for THIS hash; deterministic error bodies equal the response the same request gets alone) and the race log must be empty. Evidence reports client/server-side overlap and distinct interleaving signatures. Held on the schedules produced.",
          "Schedules are those the OS and the delay profiles produced; the race detector only sees executed accesses.",
          "DESIGN.md §C13"),
  "C14": ("svcmon", "exploration",
          "runtime monitor: start/stop cycles in a worker process and on the real CLI with requests confirmed in flight by the gauge and held by hook delays; completion/rebind/exit-status/deadlock oracles",
-         "(A) server.Run/RequestStop/AwaitStop cycles on the same two addresses in a child worker (a panic or deadlock ends only the worker and is reported with its stack): stop immediately (start delayed by hooks), after ports answer, with 1-4 requests confirmed in flight at chosen handler stages, after completion, a long hold of 8 s (35 s thorough) past the stop, rapid restarts; (B) `gnark-mbu start` + SIGINT with the same in-flight timings. Every in-flight client must get its specified response, addresses must bind immediately, exit status 0. Held on the cycles run.",
+         "(A) server.Run/RequestStop/AwaitStop cycles on the same two addresses in a child worker (a panic or deadlock ends only the worker and is reported with its stack): stop immediately (start delayed by hooks), after ports answer, with 1-4 requests confirmed in flight at chosen handler stages, after completion, a long hold of 8 s (35 s thorough) past the stop, rapid restarts; a server-side ordering oracle from the hook event log (no handler event after the last job finished shutting down); (B) `gnark-mbu start` + SIGINT with the same in-flight timings. Every in-flight client must get its specified response, addresses must bind immediately, exit status 0. Held on the cycles run.",
          "SIGINT before the handler is installed is out of scope; watchdog >= 120 s turns into a violation only for AwaitStop/exit.",
          "DESIGN.md §C14"),
  "C09": ("svcmon", "exploration",
          "runtime monitor: hostile request history against a real server child, per-request status/code/proof oracle, liveness probe, crash-mark scan",
-         "One long PRNG history per mode on one `gnark-mbu start` instance: non-POST methods, ~16 kinds of malformed bodies incl. body-read failures produced on the wire, wrong shapes (each array +-1/empty/10^4), every invalid batch class, wrong hashes, valid batches in four number styles. Every 200 body is verified as a Groth16 proof for the request's own hash with the vk held by the monitor; after every request a probe must be answered and stderr is scanned. Held on the requests sent.",
+         "One long PRNG history per mode on one `gnark-mbu start` instance: non-POST methods, ~16 kinds of malformed bodies incl. body-read failures produced on the wire, wrong shapes (each array +-1/empty/10^4), every invalid batch class, wrong hashes, valid batches in four number styles (also padded with MBs of whitespace). The server runs with small hook delays and six clients so that requests overlap inside the handler. Every 200 body is verified as a Groth16 proof for the request's own hash with the vk held by the monitor; after every request a probe must be answered and stderr is scanned. Held on the requests sent.",
          "Classes whose outcome the property leaves open accept either documented outcome; error messages are not compared.",
          "DESIGN.md §C09"),
  "C20": ("svcmon", "exploration",
          "runtime monitor: recorded request/scrape history checked with porcupine against a per-(method,code) counter model + conservation after quiescence",
-         "Client-boundary history of sequential and concurrent (8/16 clients) mixed requests with a scraper running throughout; porcupine checks the history (request = increment inside its interval, scrape = read) partitioned by (method, code); after quiescence the scraped totals must equal the client tally and the gauge be 0; gauge bounded by overlapping operations on every scrape; scrapes must complete while proofs are in flight. Held on the histories recorded.",
+         "Client-boundary history of sequential and concurrent (8/16 clients) mixed requests with a scraper running throughout; porcupine checks the history (request = increment inside its interval, scrape = read) partitioned by (method, code); after quiescence the scraped totals must equal the client tally and the gauge be 0; gauge bounded by overlapping operations on every scrape; scrapes must complete while proofs are in flight; one request stays in flight for 33 s (130 s thorough). Held on the histories recorded.",
          "Assumes promhttp increments before the handler chain returns and small responses are flushed afterwards (checked implicitly: otherwise porcupine would reject the unchanged tree).",
          "DESIGN.md §C20"),
  "C12": ("climon", "exploration",
          "runtime monitor: digests of the constraint system from every construction path, repeated/concurrent/fresh-process runs compared with each other",
-         "For each dimension the SHA-256 of the constraint system from BuildR1CS*, Setup*, Import*Setup, 8 concurrent compilations, fresh r1cs processes under several GOMAXPROCS and the cs section of setup/import-setup keys files must all be equal (no pinned constant); interleaved multi-/single-block compile sequences; public wires [1, InputHash]; Solidity uint256[1]; depth-32 deletion refused on every path incl. import; thorough runs the monitor under -race. Held on the runs made.",
+         "For each dimension the SHA-256 of the constraint system from BuildR1CS*, Setup*, Import*Setup, 8 concurrent compilations, fresh r1cs processes under several GOMAXPROCS and the cs section of setup/import-setup keys files must all be equal (no pinned constant); interleaved multi-/single-block and same-batch/other-depth compile sequences; compile-only path comparison at depth*batch >= 256; public wires [1, InputHash]; Solidity uint256[1]; depth-32 deletion refused on every path incl. import; thorough runs the monitor under -race. Held on the runs made.",
          "Schedules are those the OS produced; digest of WriteTo identifies the system.",
          "DESIGN.md §C12"),
  "C17": ("climon", "exploration",
          "runtime monitor: extraction output (in-process repeated, fresh processes) compared byte-wise and per definition with the committed Lean model",
-         "ExtractLean(30,4) three times in one process and extract-circuit in fresh processes under GOMAXPROCS 1/4/16 must equal formal-verification/FormalVerification.lean (54 definitions compared individually); all SemaphoreMTB names used by the proof files must be defined; a sweep revisiting dimensions must be deterministic. The Lean proofs are not rebuilt (toolchain absent).",
+         "ExtractLean(30,4) three times in one process and extract-circuit in fresh processes under GOMAXPROCS 1/4/16 must equal formal-verification/FormalVerification.lean (54 definitions compared individually); all SemaphoreMTB names used by the proof files must be defined; a sweep revisiting dimensions must be deterministic; CLI extraction also writes over an existing longer file. The Lean proofs are not rebuilt (toolchain absent).",
          "Model text equality, not proof re-checking.",
          "DESIGN.md §C17"),
  "C19": ("climon", "exploration",
          "runtime monitor: real binary in fresh processes; stdout/exit-status oracle from in-monitor Groth16 verification",
-         "setup -> gen-test-params | prove -> verify on real keys files; prove on independently written documents (short roots, four number styles) with stdout required to be exactly one proof; verify on CLI proofs, re-randomised valid derivatives (short coordinates first, hashes with odd hex length), tampered/reordered proofs, wrong hashes, other-mode keys, garbage; unprovable parameters; six mode spellings on six commands; missing/empty/truncated/directory keys. Held on the invocations made.",
+         "setup -> gen-test-params | prove -> verify on real keys files; prove on independently written documents (short roots, four number styles) with stdout required to be exactly one proof; verify on CLI proofs, re-randomised valid derivatives (short coordinates first, hashes with odd hex length), tampered/reordered proofs, wrong hashes, other-mode keys, garbage; unprovable parameters; six mode spellings on six commands; missing/empty/truncated/directory keys; gen-test-params over dimensions up to the full tree; setup re-run over a path that already holds the other mode's keys. Held on the invocations made.",
          "Verify oracle = gnark Verify with the vk from export-vk.",
          "DESIGN.md §C19"),
  "C03": ("circmon", "exploration",
@@ -47,27 +47,27 @@ CHECKS = {
          "DESIGN.md §3.1, §C03"),
  "C07": ("provmon", "exploration",
          "runtime monitor: real Groth16 setup/prove/verify with reference validity + hash oracle, re-randomised proofs, cross-system checks",
-         "Real proving systems of both modes (incl. a same-shape pair and an independent second setup) prove valid batches; each proof and 60-200 re-randomised derivatives are verified for the own hash (+r, +2r accepted) and against neighbouring/perturbed/foreign/random public inputs, the other mode's system and the independent setup (rejected); every invalid batch class, wrong hashes and 15 wrong-dimension mutations must give error and nil proof. Held on the calls made.",
+         "Real proving systems of both modes (incl. a same-shape pair and an independent second setup) prove valid batches; each proof and 60-200 re-randomised derivatives are verified for the own hash (+r, +2r accepted) and against neighbouring/perturbed/foreign/random public inputs, the other mode's system and the independent setup (rejected); every invalid batch class, wrong hashes and 15 wrong-dimension mutations must give error and nil proof; valid/invalid twins with the same input hash are proved concurrently. Held on the calls made.",
          "Trusts gnark's Groth16 and the monitor's reference specs; dimensions beyond those set up are not covered.",
          "DESIGN.md §C07"),
  "C08": ("provmon", "exploration",
          "runtime monitor: differential test of the hash helpers against independent packing + Keccak, circuit solve, CLI sweep of gen-test-params",
-         "ComputeInputHashInsertion/Deletion on tens of thousands of parameter sets of every magnitude class (k leading zero bytes for all k) compared with the on-chain packing; a sequential stream exposes state carried between calls; short-root valid batches are solved in the full circuit with the helper's hash; gen-test-params output for a (mode, depth, batch) sweep is parsed independently and checked for hash, validity and provability. Held on the sets produced.",
+         "ComputeInputHashInsertion/Deletion on tens of thousands of parameter sets of every magnitude class (k leading zero bytes for all k) compared with the on-chain packing; a sequential stream, pre-filled hash fields and one struct refilled for consecutive batches expose state carried between calls; production-size batches (up to 4096); short-root valid batches are solved in the full circuit with the helper's hash; gen-test-params output for a (mode, depth, batch) sweep is parsed independently and checked for hash, validity and provability. Held on the sets produced.",
          "Trusts x/crypto Keccak and the packing written from the property statement; hash equality modulo r.",
          "DESIGN.md §C08"),
  "C10": ("provmon", "exploration",
          "runtime monitor: codec round trip of real, re-randomised and synthetic proofs against an independent EVM-order codec",
-         "Thousands of valid proofs (re-randomised from real ones; the monitor counts those with short coordinates and requires >=50) plus synthetic tiny-coordinate proofs are marshalled, read by an independent reader (EVM order vs. reflection on the gnark struct), unmarshalled (points equal, still verifying) and decoded from independently written minimal/padded hex; sequential stream first. Held on the proofs produced.",
+         "Thousands of valid proofs (re-randomised from real ones; the monitor counts those with short coordinates and requires >=50) plus synthetic tiny-coordinate proofs are marshalled, read by an independent reader (EVM order vs. reflection on the gnark struct), unmarshalled (points equal, still verifying) and decoded from independently written minimal/padded hex; synthetic proofs sweep every coordinate bit length 1..253 and the top of the base field; sequential stream first. Held on the proofs produced.",
          "Trusts gnark-crypto arithmetic, EIP-197 ordering as written in the property.",
          "DESIGN.md §C10"),
  "C11": ("provmon", "exploration",
          "runtime monitor: write/read both formats + CLI conversion, canonical digests and cross prove/verify against the original in-memory system",
-         "Real insertion/deletion systems and hundreds of small independent systems are written compressed and raw, converted by the CLI, read back by both readers; header, digests of pk/vk/cs, byte counts and cross prove/verify between original and reloaded system are checked. Held on the systems produced.",
+         "Real insertion/deletion systems and hundreds of small independent systems are written compressed and raw, converted by the CLI (to a fresh path and in place), written repeatedly over one shared path, read back by both readers; header, digests of pk/vk/cs, byte counts and cross prove/verify between original and reloaded system are checked. Held on the systems produced.",
          "Digest = SHA-256 of gnark's own canonical serialisation of the in-memory parts.",
          "DESIGN.md §C11"),
  "C15": ("provmon", "fault_enumeration",
          "fault enumeration at run time: every cut offset of small files, boundaries and samples of real files, CLI on truncated files",
-         "Every strict prefix (all byte offsets) of several small proving-system files in both formats, and boundary/PRNG offsets of real 60-90 MB files, are fed to UnsafeReadFrom / ReadSystemFromFile under recover() and a watchdog: outcome must be an error. CLI commands on six truncated files must exit non-zero and start must not stay up. Exhaustive per small file; sampled for real files.",
+         "Every strict prefix (all byte offsets) of several small proving-system files in both formats, and boundary/PRNG offsets of real 60-90 MB files, are fed to UnsafeReadFrom / ReadSystemFromFile under recover() and a watchdog: outcome must be an error. The complete file is loaded through the file reader first, then its prefixes. CLI commands on six truncated files must exit non-zero within their watchdog and start must not stay up. Exhaustive per small file; sampled for real files.",
          "Assumes truncation = strict prefix; small files share the layout of real ones.",
          "DESIGN.md §C15"),
  "C01": ("circmon", "exploration",
@@ -82,12 +82,12 @@ CHECKS = {
          "DESIGN.md §3.1, §C02"),
  "C04": ("circmon", "exploration",
          "runtime monitor: gadget executed in gnark's test engine and as compiled R1CS, digest compared with x/crypto sha3",
-         "Every byte length 0..409 (all residues mod 136 in 1-4 blocks; 0..817 thorough) plus production lengths, six content kinds, both domains: the reference digest must be accepted and a flipped bit / the other domain's digest rejected. Compiled R1CS at boundary lengths. Held on the messages produced.",
+         "Every byte length 0..409 (all residues mod 136 in 1-4 blocks; 0..817 thorough) plus production lengths, six content kinds, both domains: the reference digest must be accepted and a flipped bit / the other domain's digest rejected. Compiled R1CS at boundary lengths; a harness hashing several sub-slices of one buffer inside one circuit (engine and compiled). Held on the messages produced.",
          "Trusts golang.org/x/crypto/sha3 and gnark's test engine; only byte-aligned messages.",
          "DESIGN.md §C04"),
  "C05": ("circmon", "exploration",
          "runtime monitor: gadget solved as compiled R1CS (and in the test engine) vs. iden3 Poseidon and published vectors",
-         "Poseidon1/Poseidon2 harnesses solved on specials (0,1,2,r-1,r-2,2^k,2^k-1 for all k), all small pairs, sparse/dense and uniform elements, with the reference digest (accept) and reference+1 (reject); a harness calling the gadgets repeatedly on shared operands exposes aliasing. Held on the inputs produced.",
+         "Poseidon1/Poseidon2 harnesses solved on specials (0,1,2,r-1,r-2,2^k,2^k-1 for all k), all small pairs, sparse/dense and uniform elements, with the reference digest (accept) and reference+1 (reject); harnesses calling the gadgets repeatedly on shared bare inputs and on derived, re-used expressions (compiled and in the engine) expose aliasing and in-place updates. Held on the inputs produced.",
          "Trusts iden3 go-iden3-crypto Poseidon, anchored to two published circomlib vectors at run time.",
          "DESIGN.md §C05"),
  "C06": ("circmon", "exploration",
@@ -97,12 +97,12 @@ CHECKS = {
          "DESIGN.md §C06"),
  "C16": ("provmon", "exploration",
          "runtime monitor: differential round trip against an independent JSON reader/writer",
-         "PRNG parameter sets of every magnitude/shape are encoded by the repository, read back by an independent reader and by the repository's decoder; documents from an independent writer in decimal/0x/0X/padded hex must decode to the same values; one numeric position replaced by a non-number, or an index by an out-of-range value, must make decoding fail. Held on the documents produced.",
+         "PRNG parameter sets of every magnitude/shape are encoded by the repository, read back by an independent reader and by the repository's decoder; documents from an independent writer in decimal/0x/0X/padded hex must decode to the same values; one numeric position replaced by a non-number (incl. a sign after the 0x prefix), or an index by an out-of-range value, must make decoding fail; a sequential stream checks that a document with an absent key does not silently take values (in particular not those of an earlier decode). Held on the documents produced.",
          "Trusts encoding/json and big.Int.SetString in the independent codec; spellings the property does not mention are not asserted.",
          "DESIGN.md §C16"),
  "C18": ("provmon", "exploration",
          "runtime monitor: reference-model oracle over PRNG update histories",
-         "Every Update() of PRNG histories on the real poseidon_tree at every depth 1..32 is compared with an independent sparse reference tree and with from-scratch recomputation from the leaf map; returned paths are folded against previous and new roots. Held on the executions produced; not a proof over all histories.",
+         "Every Update() of PRNG histories on the real poseidon_tree at every depth 1..32 is compared with an independent sparse reference tree and with from-scratch recomputation from the leaf map; returned paths are folded against previous and new roots; histories include repeated indices, identities moved to the sibling slot, re-used and small values. Held on the executions produced; not a proof over all histories.",
          "Trusts iden3 go-iden3-crypto Poseidon as the reference hash and the monitor's 40-line sparse tree (itself cross-checked by dense recomputation at depth <= 10).",
          "DESIGN.md §C18"),
 }
